@@ -177,6 +177,8 @@ class InProtocolBase(ProtocolMixin):
         self._from_unicode_handlers[Decimal] = self.decimal_from_unicode
         self._from_unicode_handlers[DateTime] = self.datetime_from_unicode
         self._from_unicode_handlers[Duration] = self.duration_from_unicode
+        self._from_unicode_handlers[XmlAttribute] = \
+                                                self.xmlattribute_from_unicode
 
 
         self._datetime_dsmap = {
@@ -762,6 +764,9 @@ class InProtocolBase(ProtocolMixin):
 
     def xmlattribute_from_bytes(self, cls, value):
         return self.from_bytes(cls.type, value)
+
+    def xmlattribute_from_unicode(self, cls, value):
+        return self.from_unicode(cls.type, value)
 
     def _datetime_from_unicode(self, cls, string):
         cls_attrs = self.get_cls_attrs(cls)
